@@ -252,6 +252,42 @@ def site_obligations(rep):
                    replay=replay_render(f'select {miss[0].lower()} a from t'))
 
 
+# ------------------------------------------------------------------ compile hooks registered with @compiles run inside statement compilation
+def hook_obligations(rep):
+    """every module-level function decorated with @compiles(...) is executed symbolically for an arbitrary string payload: whatever it raises
+    escapes through get_string/get_exec_params, so it may only raise what the fallback handler catches"""
+    tree = repo.module_ast(RENDER)
+    hooks = [fd for fd in tree.body if isinstance(fd, ast.FunctionDef) and any(isinstance(d, ast.Call) and getattr(d.func, 'id', None) == 'compiles' for d in fd.decorator_list)]
+    rep.census['compile_hooks'] = [h.name for h in hooks]
+    for fd in hooks:
+        dialects = [a.value for d in fd.decorator_list if isinstance(d, ast.Call) for a in d.args[1:] if isinstance(a, ast.Constant)]
+
+        def make_args(ex):
+            el = SymObj(None, 'element', prov='param')
+            el.known_not_none = True
+            el.fields['info'] = pysym.mk_str('info')
+            comp = SymObj(None, 'compiler', prov='param')
+            comp.known_not_none = True
+            return [el, comp], {}
+
+        def post(ex, o):
+            from sqlalchemy.exc import SQLAlchemyError
+            if o.kind == 'raise' and not issubclass(o.value, (NotImplementedError, SQLAlchemyError)):
+                return f'raises {o.value.__name__} for some payload string'
+            return None
+        v = pysym.verify(RENDER, fd.name, make_args, post, node=fd)
+
+        def rp(dialects=dialects):
+            for sql in ("select interval '90' from t", "select interval '' from t", "select interval '1 day' from t", "select a from t where b > c - interval '01:30:00'"):
+                for dn in (dialects or DIALECT_NAMES):
+                    for fb in (True, False):
+                        r = replay_render(sql, dn, fb)
+                        if r['fires']:
+                            return r
+            return {'input': "select interval '90' from t", 'dialect': 'mindsdb', 'fires': False, 'observed': 'renders for every dialect name'}
+        _emit(rep, f'C17.raise.hook.{fd.name}', v, f'{RENDER}:{fd.name}', 'requires element.info: str; raises subset {NotImplementedError, SQLAlchemyError}', replay=rp)
+
+
 # ------------------------------------------------------------------ frame: the caller's tree is not written
 def frame_obligations(rep):
     tree = repo.module_ast(RENDER)
@@ -360,6 +396,7 @@ def check(rep, tier):
     fallback_obligations(rep)
     raise_census(rep)
     site_obligations(rep)
+    hook_obligations(rep)
     frame_obligations(rep)
     bounded(rep, tier)
     rep.notes.append('Handler proved; own raise sites and stores decided; SQLAlchemy-originated leaks only monitored.')
